@@ -1017,3 +1017,56 @@ def c18_composite(inputs, doc):
                     if again != want:
                         return dict(clause='encode(decode(bytes)) == bytes', wire=want[:80].hex(), observed=again[:80].hex())
     return None
+
+
+# --------------------------------------------------------------------------- C06: lost wake-up of the library's stream sources
+
+def c06_source_wakeup(inputs, doc):
+    """Real StreamFromGenerator / StreamFromAsyncGenerator over an endless generator: grants at chosen event-loop ticks; after the
+    loop has gone quiet every granted element must have been delivered (and never more than granted)."""
+    import asyncio
+    import itertools
+    from rsocket.payload import Payload
+    from rsocket.streams.stream_from_generator import StreamFromGenerator
+    from rsocket.streams.stream_from_async_generator import StreamFromAsyncGenerator
+    from reactivestreams.subscriber import DefaultSubscriber
+
+    def sync_gen():
+        for i in itertools.count():
+            yield Payload(b'%d' % i), False
+
+    async def async_gen():
+        for i in itertools.count():
+            yield Payload(b'%d' % i), False
+
+    class Sub(DefaultSubscriber):
+        def __init__(self):
+            super().__init__()
+            self.got = []
+
+        def on_next(self, value, is_complete=False):
+            self.got.append(value)
+
+    async def scenario(cls, factory, first, ticks, second):
+        src = cls(factory)
+        sub = Sub()
+        src.subscribe(sub)
+        src.request(first)
+        for _ in range(ticks):
+            await asyncio.sleep(0)
+        src.request(second)
+        for _ in range(60):
+            await asyncio.sleep(0)
+        n = len(sub.got)
+        src.cancel()
+        await asyncio.sleep(0)
+        return n
+    for cls, factory in ((StreamFromGenerator, sync_gen), (StreamFromAsyncGenerator, async_gen)):
+        for first in (1, 2, 3):
+            for second in (1, 2, 4):
+                for ticks in range(0, 7):
+                    got = asyncio.run(scenario(cls, factory, first, ticks, second))
+                    if got != first + second:
+                        return dict(source=cls.__name__, first_grant=first, loop_ticks_before_second_grant=ticks, second_grant=second,
+                                    delivered=got, expected=first + second)
+    return None
